@@ -44,6 +44,7 @@ fn main() {
                 line.clear();
             }
         }
+        Some("asstr") => asstr(&args[1..]),
         Some("jobs") => jobs(&args[1..]),
         _ => {
             eprintln!("usage: c19 jobs … | c19 interner <jitter>");
@@ -165,4 +166,57 @@ fn jobs(args: &[String]) {
         }
     }
     println!("\n@@DONE\t{k}");
+}
+
+/// F8 probe: `Symbol::as_str` hands out a `&str` into the interner's single growing buffer with the lifetime erased.
+/// Each reader thread interns a name, keeps the slice (exactly what the compiler does with `sym.as_str()`), lets the
+/// other threads intern fresh strings (the buffer reallocates), and then checks whether the slice still points at the text.
+/// Prints `@@ASSTR checks stale first`: stale = the slice's address no longer holds the symbol's text (buffer moved).
+fn asstr(args: &[String]) {
+    use mimium_lang::interner::ToSymbol;
+    let k: usize = args.first().and_then(|s| s.parse().ok()).unwrap_or(4);
+    let rounds: usize = args.get(1).and_then(|s| s.parse().ok()).unwrap_or(200);
+    let barrier = std::sync::Arc::new(std::sync::Barrier::new(k));
+    let hs: Vec<_> = (0..k)
+        .map(|t| {
+            let b = barrier.clone();
+            std::thread::spawn(move || {
+                let (mut checks, mut stale, mut first) = (0u64, 0u64, String::new());
+                b.wait();
+                for r in 0..rounds {
+                    let name = format!("module_name_{t}_{r}");
+                    let sym = name.to_symbol();
+                    let slice: &str = sym.as_str();
+                    // what other compilations do meanwhile: intern new identifiers
+                    for j in 0..50 {
+                        let _ = format!("ident_{t}_{r}_{j}_padding_padding_padding").to_symbol();
+                    }
+                    std::thread::yield_now();
+                    checks += 1;
+                    // do NOT read through `slice` (it may dangle: that would be the use-after-free itself, observed to
+                    // SIGSEGV); compare its address with where the same symbol's text lives now
+                    let (old, len) = (slice.as_ptr() as usize, slice.len());
+                    let again = sym.as_str();
+                    if again.as_ptr() as usize != old {
+                        stale += 1;
+                        if first.is_empty() {
+                            first = format!("slice of {name:?} (len {len}) taken at {old:#x}, text now lives at {:#x}", again.as_ptr() as usize);
+                        }
+                    }
+                }
+                (checks, stale, first)
+            })
+        })
+        .collect();
+    let (mut c, mut s, mut f) = (0, 0, String::new());
+    for h in hs {
+        if let Ok((a, b, x)) = h.join() {
+            c += a;
+            s += b;
+            if f.is_empty() {
+                f = x;
+            }
+        }
+    }
+    println!("\n@@ASSTR\t{c}\t{s}\t{f}");
 }
